@@ -297,11 +297,30 @@ def unit_env_locks(tier, pid):
                          'backend': 'syntactic', 'seconds': 0.0})
             continue
         bad = []
+        sections = []
+
+        def in_loop_of(node):
+            # is `node` inside a loop of fn (not counting loops of nested function definitions it is not in)?
+            def walk(cur, loops):
+                if cur is node:
+                    return loops > 0
+                if isinstance(cur, ast.FunctionDef) and cur is not fn:
+                    return None
+                for ch in ast.iter_child_nodes(cur):
+                    r = walk(ch, loops + (1 if isinstance(cur, (ast.For, ast.While)) else 0))
+                    if r is not None:
+                        return r
+                return None
+            return bool(walk(fn, 0))
 
         def visit(node, locked):
             if isinstance(node, ast.With):
                 is_lock = any(isinstance(it.context_expr, ast.Attribute) and isinstance(it.context_expr.value, ast.Name)
                               and it.context_expr.value.id == 'self' and it.context_expr.attr == 'lock' for it in node.items)
+                if is_lock and not locked:
+                    sections.append(node)
+                    if in_loop_of(node):
+                        bad.append(f'line {node.lineno}: the lock is taken inside a loop: one call is several atomic actions')
                 for ch in node.body:
                     visit(ch, locked or is_lock)
                 return
@@ -321,8 +340,10 @@ def unit_env_locks(tier, pid):
                 visit(ch, locked)
         for st in extract.strip_doc(fn):
             visit(st, False)
+        if len(sections) > 1:
+            bad.append(f'{len(sections)} separate `with self.lock:` sections (lines {[n_.lineno for n_ in sections]}): one call is several atomic actions')
         rec(f'Env.{m}::structure::shared-state-only-under-lock', not bad,
-            'every use of self outside `with self.lock:` is self.lock itself or a call of an atomic Env method', '; '.join(bad))
+            'every use of self outside `with self.lock:` is self.lock itself or a call of an atomic Env method; the lock is taken once per call (one section, not in a loop)', '; '.join(bad))
     # replays of a refuted structure obligation: the parking stand-in
     for r in recs:
         if r['status'] == 'refuted':
